@@ -66,6 +66,9 @@ pub enum Req {
     /// channels overpay (validate and apply of the node-wide payment ledger must be one step).
     /// phase1 = raw entry point (transaction + witness scripts), else the semantic one
     CSignPay { ch: u8, phase1: bool },
+    /// force-close signature for the current holder commitment (number 0): marks the channel
+    /// closed, which the balance reports as sweeping
+    HSignClose { ch: u8 },
 }
 
 #[derive(Clone, Debug, Serialize, Deserialize)]
@@ -112,6 +115,19 @@ fn req_strat_pay() -> impl Strategy<Value = Req> {
         1 => Just(Req::NodeBalance),
         1 => Just(Req::Heartbeat),
         1 => ch().prop_map(|ch| Req::ChanBalance { ch }),
+    ]
+}
+
+/// request mix centred on node-wide queries next to per-channel state changes (a query must be a
+/// consistent snapshot)
+fn req_strat_snapshot() -> impl Strategy<Value = Req> {
+    let ch = || 0u8..2;
+    prop_oneof![
+        6 => ch().prop_map(|ch| Req::HSignClose { ch }),
+        2 => (ch(), 1u8..2, 0u8..2).prop_map(|(ch, n, variant)| Req::CSign { ch, n, variant }),
+        6 => Just(Req::NodeBalance),
+        1 => ch().prop_map(|ch| Req::ChanBalance { ch }),
+        1 => Just(Req::Heartbeat),
     ]
 }
 
@@ -436,6 +452,10 @@ fn exec(cx: &Ctx2, r: &Req) -> String {
                 Err(_) => "err".into(),
             }
         }
+        Req::HSignClose { ch } => {
+            let ci = *ch as usize % 2;
+            st(node.with_channel(&cx.ids[ci], |chn| chn.sign_holder_commitment_tx_phase2(0)).map(|s| format!("{}", s)))
+        }
         Req::CSignPay { ch, phase1 } => {
             let ci = *ch as usize % 2;
             let Some((c, tx, ws)) = &cx.chans[ci].pay else { return "err".into() };
@@ -547,7 +567,7 @@ impl Prop for C20 {
         ]
     }
     fn cases(&self, tier: Tier) -> u32 {
-        tier.pick(14, 60)
+        tier.pick(30, 120)
     }
     fn min_nontrivial(&self, tier: Tier) -> usize {
         tier.pick(40, 200)
@@ -581,7 +601,9 @@ impl Prop for C20 {
             .prop_map(|(threads, pct, sched_seed)| Case { threads: trim(threads), pct, sched_seed, chain: true });
         let pay = (proptest::collection::vec(proptest::collection::vec(req_strat_pay(), 1..3), 2..4), any::<bool>(), any::<u64>())
             .prop_map(|(threads, pct, sched_seed)| Case { threads: trim(threads), pct, sched_seed, chain: false });
-        prop_oneof![3 => plain, 3 => chain, 2 => pay].boxed()
+        let snapshot = (proptest::collection::vec(proptest::collection::vec(req_strat_snapshot(), 1..3), 2..4), any::<bool>(), any::<u64>())
+            .prop_map(|(threads, pct, sched_seed)| Case { threads: trim(threads), pct, sched_seed, chain: false });
+        prop_oneof![3 => plain, 3 => chain, 2 => pay, 2 => snapshot].boxed()
     }
 
     fn run(&self, case: &Case, stt: &mut CaseStats, ctx: &Ctx) -> Result<(), Violation> {
@@ -680,7 +702,7 @@ impl Prop for C20 {
                 for x in a.iter() {
                     for y in b.iter() {
                         let cx = |r: &Req| match r {
-                            Req::HValidate { ch, .. } | Req::HRevoke { ch, .. } | Req::HSecret { ch, .. } | Req::CSign { ch, .. } | Req::CRevoke { ch, .. } | Req::ChanBalance { ch } | Req::Forget { ch } => Some(*ch % 2),
+                            Req::HValidate { ch, .. } | Req::HRevoke { ch, .. } | Req::HSecret { ch, .. } | Req::CSign { ch, .. } | Req::CRevoke { ch, .. } | Req::ChanBalance { ch } | Req::Forget { ch } | Req::HSignClose { ch } => Some(*ch % 2),
                             _ => None,
                         };
                         match (cx(x), cx(y)) {
